@@ -956,7 +956,14 @@ func (c *ctl) issue(cmd *Cmd) {
 		}()
 	case "cancel":
 		c.cancelled = true
+		// The cancel is marked in the log, under the log's lock: whatever was logged before the mark happened before the
+		// cancel.  A burst is "back to back" only as long as the runtime does not preempt this goroutine (it does, after
+		// 10 ms on a busy machine): a consumer started earlier in the same burst may receive dozens of values before the
+		// cancel is really issued, and without the mark they would count as delivered after it (GenStops).
+		c.mu.Lock()
+		c.done = append(c.done, Ev{E: "cancelmark", At: c.now()})
 		c.cancel()
+		c.mu.Unlock()
 	case "release":
 		k := c.pick(cmd.X)
 		c.mu.Lock()
